@@ -184,18 +184,26 @@ def sort_case(keys):
     return {'op': 'sortkeys', 'keys': keys, 'engine': eng, 'twin': twin}
 
 
+def _tree_work(line):
+    item = json.loads(line)
+    if 'keys' in item:
+        return [json.dumps(sort_case(item['keys']))]
+    out = []
+    for cfg in item['cfgs']:
+        ctx = U.Ctx()
+        obj = U.realise(item['t'], ctx)
+        out.append(json.dumps(one_level(item['t'], cfg, ctx, obj)))
+    return out
+
+
 def trees_main(inp, outp):
+    import multiprocessing as mp
     U.setup_world()
-    with open(outp, 'w') as fh:
-        for line in open(inp):
-            item = json.loads(line)
-            if 'keys' in item:
-                fh.write(json.dumps(sort_case(item['keys'])) + '\n')
-                continue
-            for cfg in item['cfgs']:
-                ctx = U.Ctx()
-                obj = U.realise(item['t'], ctx)
-                fh.write(json.dumps(one_level(item['t'], cfg, ctx, obj)) + '\n')
+    lines = list(open(inp))
+    with mp.Pool(int(os.environ.get('VERIF_PROCS', '16')), initializer=U.setup_world) as pool, open(outp, 'w') as fh:
+        for res in pool.imap(_tree_work, lines, chunksize=32):
+            for c in res:
+                fh.write(c + '\n')
     # partially ordered keys (frozensets): the two real implementations are only compared with each other
     import random
     rng = random.Random(0)
